@@ -24,7 +24,10 @@ FN_LOAD = 170
 FN_DIR = 171
 
 # ---- unit pool: equal dimension, different scale ------------------------------------------------------------------
-POOL = {'V': ['volt', 'mV', 'uV'], 'T': ['second', 'ms'], '1': ['dimensionless', 'percent'], 'U': ['ub', 'kub'],
+POOL = {'V': ['volt', 'mV', 'uV', 'nV', 'pV', 'dmV'],      # nV -> uV -> mV -> volt, pV one deeper; dmV = (mV ms) / ms
+        'T': ['second', 'ms'],
+        # dimensionless RATIO units whose names do not cancel: mV / volt, litre / metre^3, mg / kilogram
+        '1': ['dimensionless', 'percent', 'mV_per_V', 'L_per_m3', 'ppm'], 'U': ['ub', 'kub'],
         'A': ['m2', 'half_m2', 'quarter_cm2'],     # user units combining multiplier, prefix and exponent
         'H': ['rt_s', 'rt_ms'], 'Q': ['s15', 'ms15'], 'N': ['prt_s', 'prt_ms']}     # half-integer exponents
 # two user unit names whose MEANING changes from document to document (flavour 0, 1, 2)
@@ -54,10 +57,10 @@ DIM_OF.update({('g_' + q): 'M' for q in ['yotta', 'zetta', 'exa', 'peta', 'tera'
 SCALE = {'volt': Fraction(1), 'mV': Fraction(1, 1000), 'uV': Fraction(1, 10 ** 6), 'second': Fraction(1),
          'ms': Fraction(1, 1000), 'dimensionless': Fraction(1), 'percent': Fraction(1, 100), 'ub': Fraction(1),
          'kub': Fraction(1000), 'ampere': Fraction(1), 'kilogram': Fraction(1), 'metre': Fraction(1),
-         'gram': Fraction(1, 1000),
+         'gram': Fraction(1, 1000), 'litre': Fraction(1, 1000),
          # CellML 5.2.7: multiplier * (prefix * unit) ** exponent
          'm2': Fraction(1), 'half_m2': Fraction(1, 2), 'quarter_cm2': Fraction(1, 4) * Fraction(1, 100) ** 2}
-BUILTIN_USED = ['volt', 'second', 'dimensionless', 'ampere', 'kilogram', 'metre', 'gram']
+BUILTIN_USED = ['volt', 'second', 'dimensionless', 'ampere', 'kilogram', 'metre', 'gram', 'litre']
 
 
 def _child(units, prefix=None, exponent=None, multiplier=None, offset=None):
@@ -77,6 +80,12 @@ def unit_defs(flavour=0, mass=()):
             _def('prt_s', [_child('second', exponent='-0.5')]),
             _def('prt_ms', [_child('second', prefix='milli', exponent='-0.5')]),
             _def('mV', [_child('volt', prefix='milli')]), _def('uV', [_child('mV', prefix='-3')]),
+            _def('nV', [_child('uV', prefix='nano', multiplier='1e6')]), _def('pV', [_child('nV', multiplier='0.001')]),
+            _def('mV_ms', [_child('mV'), _child('ms')]), _def('dmV', [_child('mV_ms'), _child('ms', exponent='-1')]),
+            _def('mg', [_child('gram', prefix='milli')]),
+            _def('mV_per_V', [_child('mV'), _child('volt', exponent='-1')]),
+            _def('L_per_m3', [_child('litre'), _child('metre', exponent='-3')]),
+            _def('ppm', [_child('mg'), _child('kilogram', exponent='-1')]),
             _def('ms', [_child('second', multiplier='0.001')]),
             _def('percent', [_child('dimensionless', multiplier='0.01')]),
             _def('ub', base='yes'), _def('kub', [_child('ub', prefix='kilo')]),
@@ -190,6 +199,27 @@ HEAD = ('<?xml version="1.0" encoding="UTF-8"?>\n<model name="m" xmlns="http://w
         'xmlns:cellml="http://www.cellml.org/cellml/1.0#" xmlns:cmeta="http://www.cellml.org/metadata/1.0#"%s>\n')
 
 
+RDF_TERMS = ['membrane_voltage', 'time', 'membrane_capacitance', 'cytosolic_calcium_concentration', 'temperature',
+             'membrane_fast_sodium_current', 'Membrane_Voltage', 'state_variable', 'rate', 'a', 'z', 'K', 'k']
+OXMETA = 'https://chaste.comlab.ox.ac.uk/cellml/ns/oxford-metadata#'
+
+
+def rdf_xml(doc):
+    if not doc.get('rdf'):
+        return ''
+    out = ('  <rdf:RDF xmlns:rdf="http://www.w3.org/1999/02/22-rdf-syntax-ns#" '
+           'xmlns:bqbiol="http://biomodels.net/biology-qualifiers/">\n')
+    for cid, terms, split in doc['rdf']:
+        if split:
+            for t in terms:
+                out += '    <rdf:Description rdf:about="#%s"><bqbiol:is rdf:resource="%s%s"/></rdf:Description>\n' % (
+                    cid, OXMETA, t)
+        else:
+            out += '    <rdf:Description rdf:about="#%s">%s</rdf:Description>\n' % (
+                cid, ''.join('<bqbiol:is rdf:resource="%s%s"/>' % (OXMETA, t) for t in terms))
+    return out + '  </rdf:RDF>\n'
+
+
 def units_xml(d, indent='  '):
     a = ' name="%s"' % d['name']
     if d['base'] is not None:
@@ -222,7 +252,7 @@ def comp_xml(c):
         out += '    <variable%s/>\n' % a
     if c.get('reaction'):
         out += ('    <reaction reversible="no"><variable_ref variable="%s"><role role="reactant"/></variable_ref>'
-                '</reaction>\n' % c['vars'][0]['name'])
+                '</reaction>\n' % (c['vars'][0]['name'] if c['vars'] else 'ghost'))
     for m in c['maths']:
         out += '    <math xmlns="http://www.w3.org/1998/Math/MathML">\n'
         for q in m:
@@ -274,7 +304,7 @@ def to_xml(doc):
             out += conn_xml(doc['conns'][i])
     for raw in doc.get('raw', []):
         out += raw
-    return out + '</model>\n'
+    return out + rdf_xml(doc) + '</model>\n'
 
 
 # ---- document -> model input --------------------------------------------------------------------------------------
@@ -874,6 +904,9 @@ class Gen(object):
             vs = list(self.vars[c])
             r.shuffle(vs)
             comps.append({'name': c, 'vars': vs, 'maths': maths, 'units_inside': False, 'reaction': False})
+        if r.random() < 0.6:
+            # control: a component that declares no variables (and has no maths) is legal and must load
+            comps.append({'name': 'Zbare', 'vars': [], 'maths': [], 'units_inside': False, 'reaction': False})
         r.shuffle(comps)
         # encapsulation groups: every parent/child edge once, trees cut at random places
         children = {}
@@ -927,6 +960,12 @@ class Gen(object):
         if r.random() < 0.7:
             r.shuffle(order)
         doc['order'] = order
+        # RDF: several bqbiol:is annotations on one variable (in one rdf:Description or in several)
+        ided = [v['cmeta'] for c in comps for v in c['vars'] if v.get('cmeta')]
+        doc['rdf'] = []
+        for cid in r.sample(ided, min(len(ided), 3)):
+            terms = r.sample(RDF_TERMS, r.randint(2, 3))
+            doc['rdf'].append([cid, terms, r.random() < 0.5])
         return doc
 
 
@@ -1277,7 +1316,7 @@ def impl_values(model, doc, classes, si):
 
 
 # ---- permutations (C15) -------------------------------------------------------------------------------------------
-PERM_KINDS = ['units', 'groups', 'connections', 'map_variables', 'ends', 'maths', 'components']
+PERM_KINDS = ['units', 'units_reversed', 'units_forward', 'groups', 'connections', 'map_variables', 'ends', 'maths', 'components']
 
 
 def permute(doc, kind, rng):
@@ -1300,6 +1339,25 @@ def permute(doc, kind, rng):
         for i, it in zip(pos, s):
             order[i] = it
         return True
+    if kind in ('units_reversed', 'units_forward'):
+        # every <units> before (after) the units it is defined from: chains of depth >= 3 and diamonds written in
+        # reverse (forward) dependency order
+        defs = {u['name']: u for u in d['units']}
+
+        def depth(n, k=0):
+            u = defs.get(n)
+            if u is None or u['base'] == 'yes' or k > 20:
+                return 0
+            return 1 + max([depth(c['units'], k + 1) for c in u['children']] + [0])
+        pos = [i for i, (kk, _) in enumerate(order) if kk == 'units']
+        items = sorted((order[i] for i in pos), key=lambda it: (depth(d['units'][it[1]]['name']), d['units'][it[1]]['name']),
+                       reverse=(kind == 'units_reversed'))
+        if items == [order[i] for i in pos]:
+            return None
+        for i, it in zip(pos, items):
+            order[i] = it
+        d['order'] = order
+        return d
     if kind in ('units', 'groups', 'connections', 'components'):
         k = {'units': 'units', 'groups': 'group', 'connections': 'conn', 'components': 'comp'}[kind]
         if not shuffle_kind(k):
@@ -1492,6 +1550,20 @@ def fault_sites(doc):
             out.append(['unit_cycle', i])
         out.append(['duplicate_units', i])
     out.append(['builtin_override'])
+    # a units element that can never be resolved AND is defined twice under the same name (the work-list of _add_units
+    # must still notice that it makes no progress)
+    nb = [i for i, u in enumerate(doc['units']) if u['base'] != 'yes']
+    for i in nb[:2] + nb[-1:]:
+        out.append(['unresolvable_duplicate', 'undefined', i])
+        out.append(['unresolvable_duplicate', 'cycle', i])
+    out.append(['unresolvable_duplicate', 'self', 0])
+    out.append(['unresolvable_duplicate', 'self', 1])
+    # faults inside a component that declares NO variables (an existing one, or a new one)
+    for kind in ('reaction', 'undefined_identifier', 'number_lhs', 'second_definition_elsewhere'):
+        out.append(['bare_component', kind, 'new'])
+        for i, c in enumerate(doc['comps']):
+            if not c['vars']:
+                out.append(['bare_component', kind, i])
     # cycles in the encapsulation hierarchy: close the chain of a nested component back to its root; a self-reference;
     # two or three top-level components in a ring
     par = comp_parent(doc)
@@ -1642,6 +1714,47 @@ def apply_fault(doc, f):
             if par.get(tc) is not None:
                 d['order'].append(['group', len(d['groups']) - 1])
             d['order'].append(['conn', len(d['conns']) - 1])
+    elif k == 'unresolvable_duplicate':
+        def add_units(u, front=False):
+            d['units'].append(u)
+            if d.get('order'):
+                if front:
+                    d['order'].insert(0, ['units', len(d['units']) - 1])
+                else:
+                    d['order'].append(['units', len(d['units']) - 1])
+        if f[1] == 'undefined':
+            u = d['units'][f[2]]
+            u['children'][0]['units'] = 'nosuchunit'
+            add_units(copy.deepcopy(u), front=(f[2] % 2 == 0))
+        elif f[1] == 'cycle':
+            u = d['units'][f[2]]
+            add_units(_def('cyc', [_child(u['name'])]))
+            u['children'][0]['units'] = 'cyc'
+            add_units(copy.deepcopy(u), front=(f[2] % 2 == 1))
+        else:
+            loop = _def('loopu', [_child('loopu', multiplier='2')])
+            add_units(loop, front=bool(f[2]))
+            add_units(copy.deepcopy(loop))
+    elif k == 'bare_component':
+        if f[2] == 'new':
+            c = {'name': 'Zbare2', 'vars': [], 'maths': [], 'units_inside': False, 'reaction': False}
+            d['comps'].append(c)
+            if d.get('order'):
+                d['order'].insert(len(d['order']) // 2, ['comp', len(d['comps']) - 1])
+        else:
+            c = d['comps'][f[2]]
+        if f[1] == 'reaction':
+            c['reaction'] = True
+        elif f[1] == 'undefined_identifier':
+            c['maths'].append([['eq', ci('ghost'), cn('1', 'dimensionless')]])
+        elif f[1] == 'number_lhs':
+            c['maths'].append([['eq', cn('1', 'dimensionless'), cn('2', 'dimensionless')]])
+        else:
+            # an identifier of ANOTHER component used here: undefined in this component
+            other = [x for x in d['comps'] if x['vars']]
+            if not other:
+                return None
+            c['maths'].append([['eq', ci(other[0]['vars'][0]['name']), cn('1', other[0]['vars'][0]['units'])]])
     elif k == 'cyclic_encapsulation':
         par = comp_parent(d)
         new = []
@@ -1755,6 +1868,9 @@ def observe(path):
     rec['eqs_for_each'] = q(lambda: [[v.name] + [strip(str(e)) for e in model.get_equations_for([v], strip_units=False)]
                                      for v in sorted(model.get_derived_quantities(), key=lambda x: x.name)[:8]])
     rec['free'] = q(lambda: model.get_free_variable().name)
+    # annotations: for every variable the ordered list of ontology terms and the display name derived from them
+    rec['annotations'] = q(lambda: [[v.name, model.get_ontology_terms_by_variable(v), model.get_ontology_terms_by_variable(v, OXMETA),
+                                     model.get_display_name(v), model.get_display_name(v, OXMETA)] for v in model.variables()])
     return rec
 
 
